@@ -40,7 +40,17 @@ theorem C16_inst_shape :
     Gen.rdumpQueryAppendShape = "amp-only-or-question-plus-query" ∧
     Gen.rdumpSplitWrapNoScheme = "split://{uri}" ∧ Gen.rdumpSplitWrapScheme = "split+{uri}" ∧
     Gen.rdumpSplitQueryKeys = ["count", "suffix-length"] ∧ Gen.rdumpSplitRequiresWriter = true ∧
-    Gen.rdumpSplitRebuild = "parsed.scheme + '://' + parsed.netloc + parsed.path + '?' + query" := by decide
+    Gen.rdumpSplitRebuild = "parsed.scheme + '://' + parsed.netloc + parsed.path + '?' + query" ∧
+    Gen.rdumpWriterFieldsSource = "writer_fields" ∧ Gen.rdumpWriterFieldsKeepTs = true := by decide
+
+/-- The csv and line writers select fields once more from the `fields` argument rdump hands them. With `-F` and
+    `--multi-timestamp` that argument starts with the two fields of the timestamp expansion, so the writer-side
+    selection keeps them: every name of `-F` is still selected, in order, after `ts, ts_description` (the defect
+    recorded as C16-writer-projection-drops-ts, repaired by a `fix:` commit; without the flag the statement fails). -/
+theorem C16_writer_fields_keep_ts (f : String) (hf : f.isEmpty = false) :
+    writerFields true (some f) = some ("ts,ts_description," ++ f) ∧ writerFields false (some f) = some f ∧
+    writerFields true none = none := by
+  simp [writerFields, hf, show Gen.rdumpWriterFieldsKeepTs = true by decide]
 
 /-- Per-source isolation, for every placement of failing sources and every selector (raising ones included):
     the stream is the concatenation, in source order, of what each source's own reader yields; a source that fails
